@@ -99,7 +99,7 @@ def run(prog, scope_units=None, rule="R-LENCLASS", exceptions=EXCEPT):
             done.add((kind, fld, loc))
             res.obligations += 1
             m = mentioned(length)
-            if not m:
+            if not m or c not in ALLOC_OK:      # the non-basic positions are typed by R-IDXCLASS only
                 continue
             typed += 1
             res.nontrivial += 1
